@@ -10,6 +10,8 @@ Child side (`python -m props.subserver`): interpreters for
   {"k": "T", "ops": [...]}        CTrait function-pointer protocol (twin of Driver `T|…`)
   {"k": "CT", "spec": {...}}      trait-definition round trips with behaviour comparison
   {"k": "PROG", "prog": {...}}    generated API programs (C18 runtime tier)
+  {"k": "GC" / "H" / "W" / "A"}   finalizer-time collections, handler-list mutation, failing defaults under
+                                  warnings filters, raw CTrait calls with aliased arguments (props/c18raw.py)
 """
 import json
 import os
@@ -105,6 +107,19 @@ class Server:
         ans = self._readline()
         if ans is None:
             return self._collect()
+        if isinstance(ans, dict) and (ans.get("exiting") or ans.get("gc_violation")):
+            # the child answered and left on purpose (its state is no longer trustworthy): wait for it, so that the
+            # next request starts a new one instead of racing with the exit
+            try:
+                self.p.stdin.close()
+            except Exception:
+                pass
+            try:
+                self.p.wait(timeout=10)
+            except subprocess.TimeoutExpired:
+                self.p.kill()
+                self.p.wait()
+            self.p = None
         return ans
 
     def close(self):
@@ -732,6 +747,12 @@ def main():
                 ans = do_GC(req["spec"])
             elif req["k"] == "H":
                 ans = do_H(req["spec"])
+            elif req["k"] == "W":
+                from props import c18raw
+                ans = c18raw.do_W(req["spec"])
+            elif req["k"] == "A":
+                from props import c18raw
+                ans = c18raw.do_A(req["spec"])
             else:
                 ans = {"error": "unknown request"}
         except Exception as e:  # interpreter bug or unexpected behaviour: report, keep serving
@@ -739,6 +760,8 @@ def main():
             ans = {"error": "%s: %s" % (type(e).__name__, str(e)[:300]), "tb": traceback.format_exc()[-1500:]}
         sys.stdout.write(json.dumps(ans, default=str) + "\n")
         sys.stdout.flush()
+        if isinstance(ans, dict) and ans.get("exiting"):
+            os._exit(3)      # dangling pointers around: no clean-up, no finalizers
 
 
 if __name__ == "__main__":
